@@ -100,6 +100,18 @@ Next ==
   \/ \E j \in Jobs : MarkRunning(j)
 
 Spec == Init /\ [][Next]_vars
+(* focused families for the simulation mode (histories in which the index, its backup and `orphans`, resp. the cleaning
+   commands, interact more often than in uniformly random histories) *)
+NextRuns ==
+  \/ \E e \in Xps, S \in Plans, how \in {"ok", "exc", "kill"} : Run(e, S, how)
+  \/ \E e \in Xps, S \in Plans : RunGen(e, S)
+  \/ \E clean, ignoreOld \in BOOLEAN : Orphans(clean, ignoreOld)
+SpecRuns == Init /\ [][NextRuns]_vars
+NextClean ==
+  \/ \E e \in Xps, S \in Plans, how \in {"ok", "exc"} : Run(e, S, how)
+  \/ \E sel \in SUBSET Jobs, e \in Xps \cup {""}, perform \in BOOLEAN : JobsClean(sel, e, perform)
+  \/ \E j \in Jobs : MarkRunning(j)
+SpecClean == Init /\ [][NextClean]_vars
 LevelBound == TLCGet("level") <= Depth
 View == <<dirs, idx, bak, bakE, last, begun>>
 
